@@ -114,6 +114,15 @@ def nblocks(extent, blk):
     return (extent + blk - 1) // blk
 
 
+def Wb(area, block):
+    """number of blocks across the width of the area"""
+    return nblocks(area.x2 - area.x + 1, block.width)
+
+
+def Db(area, block):
+    return nblocks(area.z2 - area.z + 1, block.depth)
+
+
 contract(
     "ethosu.vela.register_command_stream_util:get_offset_block_coords", props=["C04"],
     types=dict(area=RECT, block=BLOCK, offset=TInt(lo=-8, hi=2**31),
@@ -124,10 +133,25 @@ contract(
         "(result is None) == ((offset if offset >= 0 else offset + nblocks(area.x2 - area.x + 1, block.width) * nblocks(area.y2 - area.y + 1, block.height)"
         " * nblocks(area.z2 - area.z + 1, block.depth)) >= nblocks(area.x2 - area.x + 1, block.width) * nblocks(area.y2 - area.y + 1, block.height)"
         " * nblocks(area.z2 - area.z + 1, block.depth))",
+        # lemmas for the numbering clause: uniqueness of quotient / remainder, stated on the terms the code computes
+        "lemma: implies(0 <= zb < Db(area, block) and 0 <= xb < Wb(area, block) and 0 <= yb and offset == (yb * Wb(area, block) + xb) * Db(area, block) + zb,"
+        " offset % Db(area, block) == zb and offset // Db(area, block) == yb * Wb(area, block) + xb)",
+        "lemma: implies(0 <= xb < Wb(area, block) and 0 <= yb, (yb * Wb(area, block) + xb) % Wb(area, block) == xb)",
+        "lemma: implies(0 <= zb < Db(area, block) and 0 <= xb < Wb(area, block) and 0 <= yb, 0 <= xb * Db(area, block) + zb < Db(area, block) * Wb(area, block))",
+        "lemma: implies(0 <= zb < Db(area, block) and 0 <= xb < Wb(area, block) and 0 <= yb and offset == (yb * Wb(area, block) + xb) * Db(area, block) + zb,"
+        " offset == yb * (Db(area, block) * Wb(area, block)) + (xb * Db(area, block) + zb))",
+        "lemma: implies(0 <= zb < Db(area, block) and 0 <= xb < Wb(area, block) and 0 <= yb and offset == (yb * Wb(area, block) + xb) * Db(area, block) + zb,"
+        " offset // (Db(area, block) * Wb(area, block)) == yb)",
         # blocks are numbered depth-fastest, then width, then height: index == (yb * W + xb) * D + zb
         "implies(result is not None and offset >= 0 and 0 <= zb < nblocks(area.z2 - area.z + 1, block.depth) and 0 <= xb < nblocks(area.x2 - area.x + 1, block.width)"
         " and 0 <= yb and offset == (yb * nblocks(area.x2 - area.x + 1, block.width) + xb) * nblocks(area.z2 - area.z + 1, block.depth) + zb,"
         " result == PointXYZ(area.x + xb * block.width, area.y + yb * block.height, area.z + zb * block.depth))",
+        # lemmas: the last block still starts inside the extent, per axis
+        "lemma: (Wb(area, block) - 1) * block.width <= area.x2 - area.x and (Db(area, block) - 1) * block.depth <= area.z2 - area.z",
+        "lemma: implies(result is not None and offset >= 0, 0 <= (offset // Db(area, block)) % Wb(area, block) <= Wb(area, block) - 1"
+        " and 0 <= offset % Db(area, block) <= Db(area, block) - 1)",
+        "lemma: implies(result is not None and offset >= 0, block.width * ((offset // Db(area, block)) % Wb(area, block)) <= (Wb(area, block) - 1) * block.width"
+        " and block.depth * (offset % Db(area, block)) <= (Db(area, block) - 1) * block.depth)",
         # the block starts inside the area
         "implies(result is not None and offset >= 0, area.x <= result.x <= area.x2 and area.y <= result.y and area.z <= result.z <= area.z2)",
     ],
